@@ -81,9 +81,11 @@ pub fn gen_clock(t: &mut Tape) -> u128 {
 /// Modification time relative to the clock. Never before the epoch, never beyond year 9999
 /// (httpdate's documented domain; see DESIGN.md).
 pub fn gen_mtime(t: &mut Tape, now_ns: u128) -> Option<u128> {
-    let base: i128 = match t.draw(12) {
+    let base: i128 = match t.draw(14) {
         0 => return None,
         1 => return Some(0),
+        12 => ((now_ns / NS + 1) * NS) as i128, // start of the next second
+        13 => ((now_ns / NS + 1) * NS) as i128 + [1i128, 200_000_000, 999_999_999][t.draw(3) as usize],
         2 => now_ns as i128 - 86_400 * NS as i128,
         3 => now_ns as i128 - NS as i128,
         4 => now_ns as i128 - 1,
